@@ -138,6 +138,55 @@ func (w *wrapperInfo) tierCalls(c *Check, fn *ssa.Function, m string) (fs, rem [
 			}
 		}
 	}
+	// the tier may also be handed to a named helper (`go storeFromPipe(ctx, &wg, rw.fs, …)`)
+	stripIface := func(v ssa.Value) ssa.Value {
+		for {
+			if mi, ok := v.(*ssa.MakeInterface); ok {
+				v = mi.X
+			} else if ci, ok := v.(*ssa.ChangeInterface); ok {
+				v = ci.X
+			} else {
+				return v
+			}
+		}
+	}
+	for _, f := range engine.AnonFuncsDeep(fn) {
+		for _, cs := range engine.SitesIn(f) {
+			h := cs.Common().StaticCallee()
+			if h == nil || len(h.Blocks) == 0 || h.Parent() != nil || !engine.IsFirstParty(pkgPathOf(h)) || h == fn {
+				continue
+			}
+			for i, arg := range cs.Common().Args {
+				arg = stripIface(arg)
+				isFs := isLoadOfField(arg, fk(engine.TypeKey(w.T), w.FsField))
+				isRem := isLoadOfField(arg, fk(engine.TypeKey(w.T), w.RemField))
+				if (!isFs && !isRem) || i >= len(h.Params) {
+					continue
+				}
+				for _, hf := range engine.AnonFuncsDeep(h) {
+					for _, s := range engine.SitesIn(hf) {
+						cc := s.Common()
+						var recv ssa.Value
+						name := ""
+						if cc.IsInvoke() {
+							recv, name = cc.Value, cc.Method.Name()
+						} else if sc := cc.StaticCallee(); sc != nil && sc.Signature.Recv() != nil && len(cc.Args) > 0 {
+							recv, name = cc.Args[0], sc.Name()
+						}
+						if name != m || recv != ssa.Value(h.Params[i]) {
+							continue
+						}
+						if isFs {
+							fs = append(fs, cs)
+						} else {
+							rem = append(rem, cs)
+						}
+						tierInner[cs] = s
+					}
+				}
+			}
+		}
+	}
 	return
 }
 
